@@ -9,7 +9,8 @@ ROOT = os.path.dirname(os.path.dirname(os.path.abspath(__file__)))
 def one(d):
     name = os.path.basename(d)
     meta = json.load(open(os.path.join(d, "meta.json")))
-    fired = [p for p, c in meta.get("checks", {}).items() if c.get("fired")]
+    fired = meta.get("originally_fired") or [p for p, c in meta.get("checks", {}).items() if c.get("fired")]
+    meta["originally_fired"] = fired
     if not fired:
         return name, None, "no check fired originally"
     tier = meta.get("tier", "quick")
